@@ -19,7 +19,10 @@ class ConvertBase:
 
         buffer = target.empty(len(src))
         for to_, from_ in mapping.items():
-            buffer.__setattr__(
-                to_, src.__getattribute__(from_) if isinstance(from_, str) else from_
-            )
+            value = src.__getattribute__(from_) if isinstance(from_, str) else from_
+            if hasattr(value, "to_numpy"):
+                # Assign by position: the source's row labels are arbitrary
+                # (e.g. after a filter, sort or rate change).
+                value = value.to_numpy()
+            buffer.__setattr__(to_, value)
         return buffer
